@@ -10,6 +10,7 @@ import (
 	"errors"
 	"fmt"
 	"io"
+	"math/rand"
 	"net"
 	"reflect"
 	"runtime"
@@ -22,6 +23,7 @@ import (
 
 	"github.com/contiv/libOpenflow/common"
 	of "github.com/contiv/libOpenflow/openflow13"
+	"github.com/contiv/libOpenflow/protocol"
 	"github.com/contiv/libOpenflow/util"
 	"github.com/sirupsen/logrus"
 )
@@ -283,6 +285,140 @@ func frame(n int, tag uint32) []byte {
 	return b
 }
 
+// mixFrames builds realistic switch-to-controller frames with the library itself (packet-in carrying
+// Ethernet/VLAN/IPv4/IPv6/ARP/ICMP/UDP packets, error, echo reply, flow-removed, port-status, features reply, vendor
+// replies) and keeps those that the real parser decodes and re-encodes to the same bytes from a PRIVATE copy, so that
+// the re-encoding of a message delivered by the stream can be compared with the frame that was sent.
+func mixFrames(rng *rand.Rand, count int, tagBase uint32) [][]byte {
+	var out [][]byte
+	payload := func(n int) []byte {
+		b := make([]byte, n)
+		rng.Read(b)
+		return b
+	}
+	mac := func() net.HardwareAddr { return net.HardwareAddr(payload(6)) }
+	for i := 0; len(out) < count && i < 8*count; i++ {
+		tag := tagBase + uint32(i)
+		var msg util.Message
+		func() {
+			defer func() { recover() }()
+			switch rng.Intn(10) {
+			case 0, 1, 2, 3, 4, 5:
+				pi := of.NewPacketIn()
+				pi.Xid = tag
+				pi.BufferId = rng.Uint32()
+				pi.TotalLen = uint16(rng.Intn(2000))
+				pi.Reason = uint8(rng.Intn(3))
+				pi.TableId = uint8(rng.Intn(250))
+				pi.Cookie = rng.Uint64()
+				pi.Match.AddField(*of.NewInPortField(uint32(1 + rng.Intn(48))))
+				eth := protocol.NewEthernet()
+				eth.HWDst, eth.HWSrc = mac(), mac()
+				if rng.Intn(3) == 0 {
+					eth.VLANID.VID = uint16(1 + rng.Intn(4000))
+					eth.VLANID.PCP = uint8(rng.Intn(8))
+				}
+				switch rng.Intn(5) {
+				case 0:
+					ip := protocol.NewIPv4()
+					ip.NWSrc, ip.NWDst = net.IP(payload(4)), net.IP(payload(4))
+					ip.Protocol = protocol.Type_ICMP
+					ic := protocol.NewICMP()
+					ic.Type, ic.Code = 8, 0
+					ic.Data = payload(4 + rng.Intn(120))
+					ip.Data = ic
+					ip.Length = ip.Len()
+					eth.Ethertype = protocol.IPv4_MSG
+					eth.Data = ip
+				case 1:
+					ip := protocol.NewIPv4()
+					ip.NWSrc, ip.NWDst = net.IP(payload(4)), net.IP(payload(4))
+					ip.Protocol = protocol.Type_UDP
+					u := protocol.NewUDP()
+					u.PortSrc, u.PortDst = uint16(rng.Intn(65536)), uint16(rng.Intn(65536))
+					u.Data = payload(rng.Intn(200))
+					u.Length = u.Len()
+					ip.Data = u
+					ip.Length = ip.Len()
+					eth.Ethertype = protocol.IPv4_MSG
+					eth.Data = ip
+				case 2:
+					a, _ := protocol.NewARP(protocol.Type_Request)
+					a.HWSrc, a.HWDst = mac(), mac()
+					a.IPSrc, a.IPDst = net.IP(payload(4)), net.IP(payload(4))
+					eth.Ethertype = protocol.ARP_MSG
+					eth.Data = a
+				case 3:
+					ip := new(protocol.IPv6)
+					ip.Version = 6
+					ip.NWSrc, ip.NWDst = net.IP(payload(16)), net.IP(payload(16))
+					ip.NextHeader = protocol.Type_IPv6ICMP
+					ic := protocol.NewICMP()
+					ic.Type = 128
+					ic.Data = payload(4 + rng.Intn(60))
+					ip.Data = ic
+					ip.Length = ic.Len()
+					eth.Ethertype = protocol.IPv6_MSG
+					eth.Data = ip
+				default:
+					eth.Ethertype = 0x88cc
+					eth.Data = util.NewBuffer(payload(rng.Intn(100)))
+				}
+				pi.Data = *eth
+				msg = pi
+			case 6:
+				e := of.NewErrorMsg()
+				e.Xid = tag
+				e.Type, e.Code = uint16(rng.Intn(14)), uint16(rng.Intn(10))
+				e.Data = *util.NewBuffer(payload(rng.Intn(64)))
+				msg = e
+			case 7:
+				h := of.NewEchoReply()
+				h.Xid = tag
+				msg = h
+			case 8:
+				ps := of.NewPortStatus()
+				ps.Xid = tag
+				ps.Reason = uint8(rng.Intn(3))
+				ps.Desc.PortNo = uint32(rng.Intn(100))
+				ps.Desc.HWAddr = mac()
+				copy(ps.Desc.Name, []byte(fmt.Sprintf("eth%d", rng.Intn(100))))
+				msg = ps
+			default:
+				msg = frameMsg(helloFrame(12+4*rng.Intn(6), tag))
+			}
+		}()
+		if msg == nil {
+			continue
+		}
+		var b []byte
+		func() {
+			defer func() { recover() }()
+			b, _ = msg.MarshalBinary()
+		}()
+		if len(b) < 8 || len(b) > 8000 {
+			continue
+		}
+		// keep it only if a private parse re-encodes to the same bytes
+		m2, err := of.Parse(append([]byte(nil), b...))
+		if err != nil || m2 == nil {
+			continue
+		}
+		b2, err := m2.MarshalBinary()
+		if err != nil || !bytes.Equal(b, b2) {
+			continue
+		}
+		out = append(out, b)
+	}
+	return out
+}
+
+// frameMsg parses a frame known to be valid (used to put hello frames into the mix)
+func frameMsg(b []byte) util.Message {
+	m, _ := of.Parse(b)
+	return m
+}
+
 // helloFrame builds a hello message of about n bytes (8, or 12+4k) that the real parser decodes and re-encodes exactly.
 func helloFrame(n int, tag uint32) []byte {
 	if n < 12 {
@@ -423,6 +559,30 @@ func init() {
 				parser = "of"
 			}
 			emit(s, chunks, "ok", parser, i%3/2+i%2)
+		}
+		// realistic mixed traffic through the real parser: more frames than pool buffers, so every delivered message is
+		// re-encoded after the buffer it was parsed from has been recycled for later frames
+		mixRuns := 6
+		if c.thorough() {
+			mixRuns = 80
+		}
+		for i := 0; i < mixRuns; i++ {
+			fr := mixFrames(c.rng, 70+c.rng.Intn(120), uint32(0x10000*(i+1)))
+			var s []byte
+			for _, f := range fr {
+				s = append(s, f...)
+			}
+			var chunks [][]byte
+			rest := s
+			for len(rest) > 0 {
+				cs := 1 + c.rng.Intn(700)
+				if cs > len(rest) {
+					cs = len(rest)
+				}
+				chunks = append(chunks, rest[:cs])
+				rest = rest[cs:]
+			}
+			emit(s, chunks, "ok", "of", i%2)
 		}
 		// failure after any byte of the third frame (and between frames)
 		for k := 0; k <= 33; k += 1 {
